@@ -894,6 +894,19 @@ func (s *Service) runPipeline(ctx context.Context, rp *runnablePipeline) error {
 				e.Str(log.NodeIDField, node.ID()).Msg("node stopped")
 			}()
 			defer nodesWg.Done()
+			defer func() {
+				// Record the error on the tomb before nodesWg.Done() runs.
+				// The tomb itself only records the returned error after this
+				// function (including all its deferred calls) returned, so
+				// without this the cleanup goroutine could get past
+				// nodesWg.Wait() and still read tomb.ErrStillAlive from
+				// rp.t.Err(), finalizing a failed pipeline as stopped.
+				// Kill only keeps the first reason, the tomb's own Kill with
+				// the same error afterwards is a no-op.
+				if errOut != nil {
+					rp.t.Kill(errOut)
+				}
+			}()
 
 			err := node.Run(ctx)
 			if cerrors.Is(err, pipeline.ErrGracefulShutdown) {
